@@ -460,4 +460,96 @@ def gen_effects(srcdir, problems):
     return "".join(out), [{"name": "effects", "ok": True, "sites": len(sites)}]
 
 
-FACT_GENERATORS = [("Retry.v", gen_retry), ("Persist.v", gen_persist), ("Schema.v", gen_schema), ("Effects.v", gen_effects)]
+
+def gen_contests(srcdir, problems):
+    """C11 (F19): which frame each decision about contest-level effects reads in BootstrapElectionModel.compute_bootstrap_errors.
+
+    all_units = concat(reporting, nonreporting, unexpected); a decision is 'Expected' when it reads only the first
+    n_train + n_test rows (through a name bound to such a slice, or a slice written in place) and 'AllUnits' when it reads all_units /
+    the unsliced indicator."""
+    rel = "elexmodel/models/BootstrapElectionModel.py"
+    src, tree = parse(os.path.join(srcdir, rel))
+    fn = find_func(tree, "BootstrapElectionModel", "compute_bootstrap_errors")
+    if fn is None:
+        raise Untranslatable("UNTRANSLATABLE BootstrapElectionModel.py: compute_bootstrap_errors not found")
+    seg = lambda n: " ".join(ast.get_source_segment(src, n).split())  # noqa: E731
+
+    def is_expected_slice(node):
+        # X[: (n_train + n_test)]  /  X[:n_train + n_test]  /  X.iloc[: ...]
+        if not isinstance(node, ast.Subscript) or not isinstance(node.slice, ast.Slice):
+            return False
+        sl = node.slice
+        if sl.lower is not None or sl.step is not None or sl.upper is None:
+            return False
+        return seg(sl.upper).replace("(", "").replace(")", "").replace(" ", "") in ("n_train+n_test", "n_test+n_train")
+
+    # names bound to the expected prefix of all_units
+    expected_names = set()
+    all_names = {"all_units"}
+    assigns = [n for n in ast.walk(fn) if isinstance(n, ast.Assign) and len(n.targets) == 1 and isinstance(n.targets[0], ast.Name)]
+    assigns.sort(key=lambda n: n.lineno)
+    for a in assigns:
+        v = a.value
+        if is_expected_slice(v):
+            base = v.value
+            if isinstance(base, ast.Attribute) and base.attr == "iloc":
+                base = base.value
+            if isinstance(base, ast.Name) and base.id in all_names:
+                expected_names.add(a.targets[0].id)
+
+    def frame_of(expr, indicator_names):
+        """Expected / AllUnits for one right-hand side"""
+        reads_all = False
+        reads_exp = False
+        sliced = set()
+        for n in ast.walk(expr):
+            if is_expected_slice(n):
+                b = n.value
+                if isinstance(b, ast.Attribute) and b.attr == "iloc":
+                    b = b.value
+                if isinstance(b, ast.Name):
+                    sliced.add((b.lineno, b.col_offset))
+                    reads_exp = True
+        for n in ast.walk(expr):
+            if isinstance(n, ast.Name) and isinstance(n.ctx, ast.Load):
+                if (n.lineno, n.col_offset) in sliced:
+                    continue
+                if n.id in expected_names:
+                    reads_exp = True
+                elif n.id in all_names or n.id in indicator_names:
+                    reads_all = True
+        if reads_all:
+            return "AllUnits"
+        if reads_exp:
+            return "Expected"
+        return None
+
+    found = {}
+    for a in assigns:
+        t = a.targets[0].id
+        if t == "postal_code_filter":
+            found["multi"] = frame_of(a.value, set())
+        elif t == "valid_districts":
+            found["valid"] = frame_of(a.value, set())
+        elif t == "contest_indicator_filtered":
+            # two assignments: the first selects the valid districts (no unit count), the second compares a count with 10
+            if any(isinstance(n, ast.Compare) for n in ast.walk(a.value)):
+                cmp_ = [n for n in ast.walk(a.value) if isinstance(n, ast.Compare)][0]
+                found["count"] = frame_of(cmp_, {"contest_indicator"})
+                thr = cmp_.comparators[0]
+                op = type(cmp_.ops[0]).__name__
+                if not (isinstance(thr, ast.Constant) and isinstance(thr.value, int)) or op not in ("Gt", "GtE"):
+                    raise Untranslatable(f"UNTRANSLATABLE BootstrapElectionModel.py:{a.lineno}: contest size test {seg(cmp_)}")
+                found["threshold"] = thr.value + (0 if op == "Gt" else -1)      # count > threshold
+    for k in ("multi", "valid", "count", "threshold"):
+        if found.get(k) is None:
+            raise Untranslatable(f"UNTRANSLATABLE BootstrapElectionModel.py: contest-effect decision '{k}' not recognised in compute_bootstrap_errors")
+    out = [HEADER, "From Coq Require Import List String Bool.\nFrom Elex Require Import Model.ContestEffects.\nImport ListNotations.\n"]
+    out.append(f"Definition multi_frame : frame := {found['multi']}.\n")
+    out.append(f"Definition valid_frame : frame := {found['valid']}.\n")
+    out.append(f"Definition count_frame : frame := {found['count']}.\n")
+    out.append(f"Definition contest_threshold : nat := {found['threshold']}%nat.\n")
+    return "".join(out), [{"name": "contests", "ok": True, "frames": [found["multi"], found["valid"], found["count"]], "threshold": found["threshold"]}]
+
+
+FACT_GENERATORS = [("Retry.v", gen_retry), ("Persist.v", gen_persist), ("Schema.v", gen_schema), ("Effects.v", gen_effects), ("Contests.v", gen_contests)]
